@@ -303,6 +303,11 @@ class Client(object):
         If not already connected make a nonblocking attempt
         Returns .connected
         """
+        if self.cutoff and self.reconnectable:  # lost connection so reopen after timeout
+            if self.timeout > 0.0 and self.timer.expired:
+                self.reopen()
+                self.timer.restart()
+
         if not self.connected:
             self.connect()
 
